@@ -1,6 +1,9 @@
 mod dump;
 mod ops;
 mod util;
+// per-property operation modules (each exposes `pub fn dispatch(op: &str, args: &[String]) -> bool`)
+// MODULES-BEGIN
+// MODULES-END
 
 fn dump_file(path: &str) -> String {
     match util::parse_doc("", &format!("@{}", path)) {
@@ -12,18 +15,25 @@ fn dump_file(path: &str) -> String {
 fn main() {
     let args: Vec<String> = std::env::args().collect();
     let op = args.get(1).map(|s| s.as_str()).unwrap_or("");
+    let rest: Vec<String> = args.iter().skip(2).cloned().collect();
     match op {
         // rvh dump-file <path.svg> [<path.svg> ...]: one line of JSON per file.
         "dump-file" => {
-            for path in &args[2..] {
+            for path in &rest {
                 println!("{}", dump_file(path));
             }
+            return;
         }
-        "dump" => util::run_batch(ops::op_dump),
-        "render-pair" => util::run_batch(ops::op_render_pair),
-        _ => {
-            eprintln!("rvh: unknown op {:?}", op);
-            std::process::exit(2);
-        }
+        "dump" => return util::run_batch(ops::op_dump),
+        "render-pair" => return util::run_batch(ops::op_render_pair),
+        _ => {}
+    }
+    let handled = false
+        // DISPATCH-BEGIN
+        // DISPATCH-END
+        ;
+    if !handled {
+        eprintln!("rvh: unknown op {:?}", op);
+        std::process::exit(2);
     }
 }
